@@ -147,6 +147,13 @@ impl<Wr: Write> Serializer for XmlSerializer<Wr> {
     {
         self.namespace_stack.push(NamespaceMap::empty());
 
+        // The prefixes used by the attributes have to be declared on this tag as well, so
+        // register them before the declarations are written.
+        let attrs: Vec<AttrRef<'a>> = attrs.collect();
+        for (attr_name, _) in attrs.iter() {
+            self.find_or_insert_ns(attr_name);
+        }
+
         self.writer.write_all(b"<")?;
         self.qual_name(&name)?;
         if let Some(current_namespace) = self.namespace_stack.0.last() {
